@@ -88,14 +88,11 @@ class LiteralToken(RegexpBaseToken):
         super().__init__(*args, *kwargs)
 
         if self.value[2]:
-            if self.value[5] or self.value[7]:
-                # a number written with a fraction or an exponent is the double nearest to its text
-                real_value = float(self.value[0])
-            else:
-                real_value = int(self.value[2])
-                if real_value > 2 ** 53:
-                    # Excel numbers are doubles: a whole number beyond 2**53 is the double nearest to it
-                    real_value = float(real_value)
+            # Excel numbers are doubles: a number is the double nearest to its text
+            real_value = float(self.value[0])
+            if not self.value[5] and real_value <= 2 ** 53 and real_value.is_integer():
+                # a whole number that a double holds exactly stays a whole number (4e1 characters, row 1e2)
+                real_value = int(real_value)
             real_value = str(real_value)
         elif self.value[1] or self.value[0] == '""':
             real_value = repr(self.value[1])
